@@ -1,4 +1,890 @@
-//! C06 — stub, replaced when the property's harness lands.
-use crate::util::{Em, Rng};
+//! C06 — kernel matrices (`linfa-kernel`) and agglomerative clustering (`linfa-hierarchical`).
+//!
+//! Ops (all inputs travel in the request line, floats as IEEE bits):
+//!   dense  m= X= ci=            dense kernel: matrix + size/sum/diagonal/upper triangle/columns
+//!   ddot   m= X= q= R=          dense kernel `dot`
+//!   sparse m= k= X= nb= ci=     sparse kernel (CSR triple + views); `nb` = what the real neighbour
+//!                               index returned for `k_nearest(row, k+1)` (external input of the model)
+//!   sdot   m= k= X= nb= q= R=   sparse kernel `dot`
+//!   hier   n= steps= dis= crit= ut=   replay of the `kodama` dendrogram (read through the hook)
+//!   #linkage …                  oracle only: the dendrogram contract the model assumes
+//! Values on whose path libm lies are written `~…`; for the linear kernel everything is exact.
+use crate::util::*;
+use linfa::traits::Transformer;
+use linfa_hierarchical::verif_hooks_c06::linkage_steps;
+use linfa_hierarchical::{HierarchicalCluster, Method};
+use linfa_kernel::{Kernel, KernelInner, KernelMethod, KernelType};
+use linfa_nn::{distance::L2Dist, CommonNearestNeighbour, NearestNeighbour};
+use ndarray::Array2;
+use std::panic::{catch_unwind, AssertUnwindSafe};
 
-pub fn run(_em: &mut Em, _rng: &mut Rng) {}
+#[derive(Clone, Copy, Debug)]
+enum Km {
+    L,
+    G(f64),
+    P(f64, f64),
+}
+impl Km {
+    fn enc(&self) -> String {
+        match self {
+            Km::L => "l".into(),
+            Km::G(e) => format!("g:{}", hex64(*e)),
+            Km::P(c, d) => format!("p:{}:{}", hex64(*c), hex64(*d)),
+        }
+    }
+    fn linfa(&self) -> KernelMethod<f64> {
+        match self {
+            Km::L => KernelMethod::Linear,
+            Km::G(e) => KernelMethod::Gaussian(*e),
+            Km::P(c, d) => KernelMethod::Polynomial(*c, *d),
+        }
+    }
+    fn name(&self) -> &'static str {
+        match self {
+            Km::L => "linear",
+            Km::G(_) => "gaussian",
+            Km::P(_, _) => "polynomial",
+        }
+    }
+    fn exact(&self) -> bool {
+        matches!(self, Km::L)
+    }
+    /// the kernel function from its definition, plain sequential loops
+    fn eval(&self, a: &[f64], b: &[f64]) -> f64 {
+        match self {
+            Km::L => a.iter().zip(b).map(|(x, y)| x * y).fold(0.0, |s, t| s + t),
+            Km::G(e) => {
+                let d = a.iter().zip(b).map(|(x, y)| (x - y) * (x - y)).fold(0.0, |s, t| s + t);
+                (-d / e).exp()
+            }
+            Km::P(c, d) => (a.iter().zip(b).map(|(x, y)| x * y).fold(0.0, |s, t| s + t) + c).powf(*d),
+        }
+    }
+}
+
+impl Km {
+    /// `got` is the kernel function of `a`, `b` up to the rounding of a differently ordered dot
+    /// product (ndarray adds eight partial sums; the naive loop adds left to right)
+    fn entry_ok(&self, got: f64, a: &[f64], b: &[f64]) -> bool {
+        let want = self.eval(a, b);
+        if approx(got, want, 1e-12, 0.0) {
+            return true;
+        }
+        let scale: f64 = a.iter().zip(b).map(|(x, y)| (x * y).abs()).fold(0.0, |s, t| s + t);
+        let delta = 1e-15 * (a.len() as f64 + 1.0) * scale;
+        match self {
+            Km::G(_) => false,
+            Km::L => (got - want).abs() <= delta,
+            Km::P(c, d) => {
+                let s = a.iter().zip(b).map(|(x, y)| x * y).fold(0.0, |s, t| s + t);
+                let (v1, v2) = ((s - delta + c).powf(*d), (s + delta + c).powf(*d));
+                if v1.is_nan() || v2.is_nan() || want.is_nan() {
+                    // the base crosses zero inside the rounding interval: either outcome is legitimate
+                    return got.is_nan() || approx(got, v1, 1e-9, 0.0) || approx(got, v2, 1e-9, 0.0) || approx(got, want, 1e-9, 0.0);
+                }
+                let (lo, hi) = (v1.min(v2).min(want), v1.max(v2).max(want));
+                got >= lo - 1e-12 * lo.abs() && got <= hi + 1e-12 * hi.abs()
+            }
+        }
+    }
+}
+
+fn fl(ex: bool, x: f64) -> String {
+    if ex { hex64c(x) } else { format!("~{}", hex64c(x)) }
+}
+fn fls(ex: bool, xs: &[f64]) -> String {
+    list(xs.iter(), |x| fl(ex, *x))
+}
+fn rows_of(x: &Array2<f64>) -> Vec<Vec<f64>> {
+    x.rows().into_iter().map(|r| r.to_vec()).collect()
+}
+fn enc_rows(r: &[Vec<f64>]) -> String {
+    list2(r.iter().map(|x| x.iter()), |x| hex64(*x))
+}
+fn beq(a: f64, b: f64) -> bool {
+    a.to_bits() == b.to_bits() || (a.is_nan() && b.is_nan())
+}
+/// numerically equal (the two zeros are the same number)
+fn neq(a: f64, b: f64) -> bool {
+    a == b || (a.is_nan() && b.is_nan())
+}
+fn approx(a: f64, b: f64, rel: f64, abs: f64) -> bool {
+    if a.is_nan() || b.is_nan() {
+        return a.is_nan() && b.is_nan();
+    }
+    if a.is_infinite() || b.is_infinite() {
+        return a == b;
+    }
+    (a - b).abs() <= abs + rel * a.abs().max(b.abs())
+}
+fn sqd(a: &[f64], b: &[f64]) -> f64 {
+    a.iter().zip(b).map(|(x, y)| (x - y) * (x - y)).fold(0.0, |s, t| s + t)
+}
+
+/// smallest eigenvalue of a symmetric matrix (cyclic Jacobi)
+fn jacobi_min_eig(m: &[Vec<f64>]) -> f64 {
+    let n = m.len();
+    let mut a: Vec<Vec<f64>> = m.to_vec();
+    for _sweep in 0..60 {
+        let mut off = 0.0;
+        for i in 0..n {
+            for j in 0..n {
+                if i != j {
+                    off += a[i][j] * a[i][j];
+                }
+            }
+        }
+        if off < 1e-26 {
+            break;
+        }
+        for p in 0..n {
+            for q in p + 1..n {
+                if a[p][q].abs() < 1e-300 {
+                    continue;
+                }
+                let theta = (a[q][q] - a[p][p]) / (2.0 * a[p][q]);
+                let t = theta.signum() / (theta.abs() + (theta * theta + 1.0).sqrt());
+                let t = if theta == 0.0 { 1.0 } else { t };
+                let c = 1.0 / (t * t + 1.0).sqrt();
+                let s = t * c;
+                for k in 0..n {
+                    let (akp, akq) = (a[k][p], a[k][q]);
+                    a[k][p] = c * akp - s * akq;
+                    a[k][q] = s * akp + c * akq;
+                }
+                for k in 0..n {
+                    let (apk, aqk) = (a[p][k], a[q][k]);
+                    a[p][k] = c * apk - s * aqk;
+                    a[q][k] = s * apk + c * aqk;
+                }
+            }
+        }
+    }
+    (0..n).map(|i| a[i][i]).fold(f64::INFINITY, f64::min)
+}
+
+/// size / sum / column / diagonal / upper triangle of the kernel against the matrix `mat`
+fn oracle_views(ctx: &mut Ctx, class: &str, kernel: &Kernel<f64>, mat: &[Vec<f64>], ci: &[usize], cols: &[Option<Vec<f64>>]) {
+    let n = mat.len();
+    ctx.require(kernel.size() == n, "view_size", class, || format!("size {} for {} records", kernel.size(), n));
+    let sum = kernel.sum().to_vec();
+    ctx.require(sum.len() == n, "view_sum", class, || format!("sum has {} entries", sum.len()));
+    for i in 0..n.min(sum.len()) {
+        let want = mat[i].iter().fold(0.0, |s, t| s + t);
+        let scale: f64 = mat[i].iter().map(|v| v.abs()).fold(0.0, |s, t| s + t);
+        ctx.require(approx(sum[i], want, 1e-12, 1e-12 * scale), "view_sum", class, || format!("row {}: sum {} but the row of the matrix adds to {}", i, sum[i], want));
+    }
+    let diag = kernel.diagonal().to_vec();
+    ctx.require(diag.len() == n && (0..n).all(|i| neq(diag[i], mat[i][i])), "view_diagonal", class, || format!("diagonal {:?}", diag));
+    let ut = kernel.to_upper_triangle();
+    let mut want = vec![];
+    for i in 0..n {
+        for j in i + 1..n {
+            want.push(mat[i][j]);
+        }
+    }
+    ctx.require(ut.len() == want.len() && ut.iter().zip(&want).all(|(a, b)| neq(*a, *b)), "view_upper_triangle", class, || format!("upper triangle {:?} want {:?}", ut, want));
+    // the borrowed kernel (`KernelView`, separate `Inner` impls) reports the same
+    let kv = kernel.view();
+    let same = |a: &[f64], b: &[f64]| a.len() == b.len() && a.iter().zip(b).all(|(x, y)| beq(*x, *y));
+    ctx.require(kv.size() == kernel.size(), "view_type_agrees", class, || "size of the borrowed kernel differs".to_string());
+    ctx.require(same(&kv.sum().to_vec(), &sum), "view_type_agrees", class, || format!("sum of the borrowed kernel {:?} vs {:?}", kv.sum(), sum));
+    ctx.require(same(&kv.diagonal().to_vec(), &diag), "view_type_agrees", class, || format!("diagonal of the borrowed kernel {:?} vs {:?}", kv.diagonal(), diag));
+    ctx.require(same(&kv.to_upper_triangle(), &ut), "view_type_agrees", class, || "upper triangle of the borrowed kernel differs".to_string());
+    for (i, c) in ci.iter().zip(cols) {
+        if let Some(c) = c {
+            let vc = catch_unwind(AssertUnwindSafe(|| kv.column(*i))).ok();
+            ctx.require(vc.as_ref().map(|v| same(v, c)).unwrap_or(false), "view_type_agrees", class, || format!("column {} of the borrowed kernel {:?} vs {:?}", i, vc, c));
+        }
+    }
+    for (i, c) in ci.iter().zip(cols) {
+        if *i < n {
+            match c {
+                Some(c) => ctx.require(c.len() == n && (0..n).all(|j| neq(c[j], mat[j][*i])), "view_column", class, || format!("column {} = {:?}", i, c)),
+                None => ctx.fail("view_column", class, format!("column({}) panicked with {} records", i, n)),
+            }
+        }
+    }
+}
+
+fn oracle_dot(ctx: &mut Ctx, class: &str, got: &Array2<f64>, mat: &[Vec<f64>], r: &[Vec<f64>], q: usize) {
+    let n = mat.len();
+    ctx.require(got.nrows() == n && got.ncols() == q, "view_dot", class, || format!("dot shape {:?}", got.dim()));
+    for i in 0..n.min(got.nrows()) {
+        for c in 0..q.min(got.ncols()) {
+            let mut s = 0.0;
+            let mut sc = 0.0;
+            for j in 0..n {
+                s += mat[i][j] * r[j][c];
+                sc += (mat[i][j] * r[j][c]).abs();
+            }
+            ctx.require(approx(got[(i, c)], s, 1e-12, 1e-12 * sc), "view_dot", class, || format!("dot[{},{}] = {} want {}", i, c, got[(i, c)], s));
+        }
+    }
+}
+
+fn columns(kernel: &Kernel<f64>, ci: &[usize]) -> Vec<Option<Vec<f64>>> {
+    ci.iter().map(|i| catch_unwind(AssertUnwindSafe(|| kernel.column(*i))).ok()).collect()
+}
+fn show_cols(ex: bool, cols: &[Option<Vec<f64>>]) -> String {
+    cols.iter()
+        .map(|c| match c {
+            Some(c) if c.is_empty() => "-".to_string(),
+            Some(c) => fls(ex, c),
+            None => "panic".to_string(),
+        })
+        .collect::<Vec<_>>()
+        .join(";")
+}
+
+fn op_dense(em: &mut Em, x: &Array2<f64>, km: Km, ci: &[usize]) {
+    let rows = rows_of(x);
+    let op = format!("dense m={} X={} ci={}", km.enc(), enc_rows(&rows), list(ci.iter(), |i| i.to_string()));
+    let class = format!("dense:{}", km.name());
+    let ex = km.exact();
+    em.case_valid(op, &class, |ctx| {
+        let n = rows.len();
+        let kernel = Kernel::<f64>::params().method(km.linfa()).transform(x.view());
+        let k: Vec<Vec<f64>> = match &kernel.inner {
+            KernelInner::Dense(a) => rows_of(a),
+            _ => {
+                ctx.fail("entry", &class, "dense parameters built a sparse kernel".into());
+                vec![]
+            }
+        };
+        ctx.require(k.len() == n && k.iter().all(|r| r.len() == n), "entry", &class, || format!("matrix is not {0}x{0}", n));
+        let mut finite = true;
+        for i in 0..k.len() {
+            for j in 0..k.len() {
+                let want = km.eval(&rows[i], &rows[j]);
+                finite &= k[i][j].is_finite();
+                ctx.require(km.entry_ok(k[i][j], &rows[i], &rows[j]), "entry", &class, || format!("K[{},{}] = {} but the kernel function gives {}", i, j, k[i][j], want));
+                ctx.require(beq(k[i][j], k[j][i]), "symmetric", &class, || format!("K[{},{}] = {} but K[{},{}] = {}", i, j, k[i][j], j, i, k[j][i]));
+            }
+            if let Km::G(_) = km {
+                ctx.require(k[i][i] == 1.0, "gaussian_diagonal", &class, || format!("K[{0},{0}] = {1}", i, k[i][i]));
+            }
+        }
+        // positive semidefinite: Gaussian (statement) and linear (theorem); numerically, v = eigenvector of the least eigenvalue
+        if finite && n > 0 && n <= 24 && !matches!(km, Km::P(_, _)) {
+            let tr: f64 = (0..n).map(|i| k[i][i].abs()).sum();
+            let lmin = jacobi_min_eig(&k);
+            ctx.require(lmin >= -1e-9 * tr.max(1.0), "positive_semidefinite", &class, || format!("least eigenvalue {} (trace {})", lmin, tr));
+        }
+        let cols = columns(&kernel, ci);
+        oracle_views(ctx, &class, &kernel, &k, ci, &cols);
+        let sum = kernel.sum().to_vec();
+        let diag = kernel.diagonal().to_vec();
+        let ut = kernel.to_upper_triangle();
+        format!(
+            "ok size={} K={} sum={} diag={} ut={} col={}",
+            kernel.size(),
+            list2(k.iter().map(|r| r.iter()), |v| fl(ex, *v)),
+            fls(ex, &sum),
+            fls(ex, &diag),
+            fls(ex, &ut),
+            show_cols(ex, &cols)
+        )
+    });
+}
+
+fn op_ddot(em: &mut Em, x: &Array2<f64>, km: Km, r: &Array2<f64>) {
+    let rows = rows_of(x);
+    let rr = rows_of(r);
+    let q = r.ncols();
+    let op = format!("ddot m={} X={} q={} R={}", km.enc(), enc_rows(&rows), q, enc_rows(&rr));
+    let class = format!("dense:{}", km.name());
+    em.case_valid(op, &class, |ctx| {
+        let kernel = Kernel::<f64>::params().method(km.linfa()).transform(x.view());
+        let k: Vec<Vec<f64>> = match &kernel.inner {
+            KernelInner::Dense(a) => rows_of(a),
+            _ => vec![],
+        };
+        let got = kernel.dot(&r.view());
+        oracle_dot(ctx, &class, &got, &k, &rr, q);
+        let gv = kernel.view().dot(&r.view());
+        ctx.require(gv.dim() == got.dim() && gv.iter().zip(got.iter()).all(|(a, b)| beq(*a, *b)), "view_type_agrees", &class, || "dot of the borrowed kernel differs".to_string());
+        format!("ok {}", list2(rows_of(&got).iter().map(|r| r.iter()), |v| fl(false, *v)))
+    });
+}
+
+const IDX: [(CommonNearestNeighbour, &str); 3] = [
+    (CommonNearestNeighbour::LinearSearch, "linear"),
+    (CommonNearestNeighbour::KdTree, "kdtree"),
+    (CommonNearestNeighbour::BallTree, "balltree"),
+];
+
+/// what the real index returns for `k_nearest(row, k+1)`, row by row
+fn neighbours(x: &Array2<f64>, k: usize, idx: &CommonNearestNeighbour) -> Option<Vec<Vec<usize>>> {
+    catch_unwind(AssertUnwindSafe(|| {
+        let nn = idx.from_batch(x, L2Dist).ok()?;
+        let mut out = vec![];
+        for row in x.rows() {
+            out.push(nn.k_nearest(row, k + 1).ok()?.into_iter().map(|(_, i)| i).collect::<Vec<_>>());
+        }
+        Some(out)
+    }))
+    .ok()
+    .flatten()
+}
+
+fn csr_of(kernel: &Kernel<f64>) -> Option<(Vec<usize>, Vec<usize>, Vec<f64>)> {
+    match &kernel.inner {
+        KernelInner::Sparse(m) => Some((m.proper_indptr().to_vec(), m.indices().to_vec(), m.data().to_vec())),
+        _ => None,
+    }
+}
+fn csr_to_dense(n: usize, csr: &(Vec<usize>, Vec<usize>, Vec<f64>)) -> Vec<Vec<f64>> {
+    let mut m = vec![vec![0.0; n]; n];
+    for i in 0..n.min(csr.0.len().saturating_sub(1)) {
+        for p in csr.0[i]..csr.0[i + 1] {
+            if csr.1[p] < n {
+                m[i][csr.1[p]] = csr.2[p];
+            }
+        }
+    }
+    m
+}
+
+/// (forced, allowed): `j` is among the `k` nearest other points of `i` under every / under some tie-break
+fn knn_sets(rows: &[Vec<f64>], k: usize, tol_rel: f64) -> (Vec<Vec<bool>>, Vec<Vec<bool>>, bool) {
+    let n = rows.len();
+    let mut forced = vec![vec![false; n]; n];
+    let mut allowed = vec![vec![false; n]; n];
+    let mut tie_free = true;
+    for i in 0..n {
+        let d: Vec<f64> = (0..n).map(|l| sqd(&rows[i], &rows[l])).collect();
+        for j in 0..n {
+            if j == i {
+                continue;
+            }
+            let tol = tol_rel * (1.0 + d[j]);
+            let le = (0..n).filter(|l| *l != i && d[*l] <= d[j] + tol).count();
+            let lt = (0..n).filter(|l| *l != i && d[*l] < d[j] - tol).count();
+            forced[i][j] = le <= k;
+            allowed[i][j] = lt < k;
+            if forced[i][j] != allowed[i][j] {
+                tie_free = false;
+            }
+        }
+        // a duplicate of the query point competes with the point itself for the k+1 slots
+        if (0..n).any(|l| l != i && d[l] <= tol_rel) {
+            tie_free = false;
+        }
+    }
+    (forced, allowed, tie_free)
+}
+
+#[allow(clippy::too_many_arguments)]
+fn op_sparse(em: &mut Em, x: &Array2<f64>, km: Km, k: usize, which: usize, ci: &[usize], lattice: bool, dot_rhs: Option<&Array2<f64>>) {
+    let rows = rows_of(x);
+    let n = rows.len();
+    let (idx, idx_name) = (&IDX[which].0, IDX[which].1);
+    let valid = k > 0 && k < n;
+    let nb = neighbours(x, k, idx);
+    if valid && nb.is_none() {
+        em.count("sparse:index_unavailable");
+        return;
+    }
+    let nb = nb.unwrap_or_default();
+    let nbs = list2(nb.iter().map(|r| r.iter()), |i| i.to_string());
+    let ex = km.exact();
+    let class = format!("sparse:{}:{}", km.name(), idx_name);
+    let head = format!("m={} k={} X={} nb={} idx={}", km.enc(), k, enc_rows(&rows), nbs, idx_name);
+    let op = match dot_rhs {
+        None => format!("sparse {} ci={}", head, list(ci.iter(), |i| i.to_string())),
+        Some(r) => format!("sdot {} q={} R={}", head, r.ncols(), enc_rows(&rows_of(r))),
+    };
+    let body = |ctx: &mut Ctx| {
+        let params = Kernel::<f64>::params_with_nn(idx.clone()).kind(KernelType::Sparse(k)).method(km.linfa());
+        let kernel = params.transform(x.view());
+        let csr = match csr_of(&kernel) {
+            Some(c) => c,
+            None => {
+                ctx.fail("sparse_support", &class, "sparse parameters built a dense kernel".into());
+                return "ok dense".to_string();
+            }
+        };
+        let mat = csr_to_dense(n, &csr);
+        if let Some(r) = dot_rhs {
+            let got = kernel.dot(&r.view());
+            oracle_dot(ctx, &class, &got, &mat, &rows_of(r), r.ncols());
+            let gv = kernel.view().dot(&r.view());
+            ctx.require(gv.dim() == got.dim() && gv.iter().zip(got.iter()).all(|(a, b)| beq(*a, *b)), "view_type_agrees", &class, || "dot of the borrowed kernel differs".to_string());
+            return format!("ok {}", list2(rows_of(&got).iter().map(|r| r.iter()), |v| fl(false, *v)));
+        }
+        // contract of the external index (C07): k+1 distinct in-range indices that are nearest
+        let (forced, allowed, tie_free) = knn_sets(&rows, k, if lattice { 0.0 } else { 1e-9 });
+        let (forced1, allowed1, _) = knn_sets_self(&rows, k + 1, if lattice { 0.0 } else { 1e-9 });
+        for (m, r) in nb.iter().enumerate() {
+            let mut s = r.clone();
+            s.sort_unstable();
+            s.dedup();
+            let ok = r.len() == k + 1 && s.len() == r.len() && r.iter().all(|j| *j < n);
+            ctx.require(ok, "nn_contract", &class, || format!("k_nearest(row {}, {}) returned {:?}", m, k + 1, r));
+            if ok {
+                ctx.require(r.iter().all(|j| allowed1[m][*j]) && (0..n).all(|j| !forced1[m][j] || r.contains(&j)), "nn_contract", &class, || format!("k_nearest(row {}, {}) = {:?} are not the nearest points", m, k + 1, r));
+            }
+        }
+        // stored pattern: rows sorted, diagonal present, exactly the symmetric closure of the kNN relation
+        let mut stored = vec![vec![false; n]; n];
+        ctx.require(csr.0.len() == n + 1, "sparse_support", &class, || format!("indptr {:?}", csr.0));
+        for i in 0..n.min(csr.0.len().saturating_sub(1)) {
+            let cols = &csr.1[csr.0[i]..csr.0[i + 1]];
+            ctx.require(cols.windows(2).all(|w| w[0] < w[1]) && cols.iter().all(|j| *j < n), "sparse_support", &class, || format!("row {} has columns {:?}", i, cols));
+            for j in cols {
+                if *j < n {
+                    stored[i][*j] = true;
+                }
+            }
+        }
+        for i in 0..n {
+            ctx.require(stored[i][i], "sparse_support", &class, || format!("diagonal entry {} is not stored", i));
+            for j in 0..n {
+                if i == j {
+                    continue;
+                }
+                let must = forced[i][j] || forced[j][i];
+                let may = allowed[i][j] || allowed[j][i];
+                if must {
+                    ctx.require(stored[i][j], "sparse_support", &class, || format!("({},{}) is a k={} neighbour pair but is not stored", i, j, k));
+                }
+                if !may {
+                    ctx.require(!stored[i][j], "sparse_support", &class, || format!("({},{}) is stored but neither point is among the other's {} nearest", i, j, k));
+                }
+                if stored[i][j] {
+                    let want = km.eval(&rows[i], &rows[j]);
+                    ctx.require(km.entry_ok(mat[i][j], &rows[i], &rows[j]), "sparse_entry", &class, || format!("stored ({},{}) = {} but the kernel function gives {}", i, j, mat[i][j], want));
+                    ctx.require(stored[j][i] && beq(mat[i][j], mat[j][i]), "symmetric", &class, || format!("stored ({},{}) = {} vs ({},{}) = {}", i, j, mat[i][j], j, i, mat[j][i]));
+                }
+            }
+            if stored[i][i] {
+                let want = km.eval(&rows[i], &rows[i]);
+                ctx.require(km.entry_ok(mat[i][i], &rows[i], &rows[i]), "sparse_entry", &class, || format!("stored ({0},{0}) = {1} but the kernel function gives {2}", i, mat[i][i], want));
+            }
+        }
+        // the stored values are those of the dense kernel of the same records
+        let dense = Kernel::<f64>::params().method(km.linfa()).transform(x.view());
+        if let KernelInner::Dense(a) = &dense.inner {
+            for i in 0..n {
+                for j in 0..n {
+                    if stored[i][j] {
+                        ctx.require(beq(mat[i][j], a[(i, j)]), "sparse_entry", &class, || format!("stored ({},{}) = {} differs from the dense kernel's {}", i, j, mat[i][j], a[(i, j)]));
+                    }
+                }
+            }
+        }
+        // whichever neighbour index is used
+        if tie_free {
+            if which != 0 {
+                let other = Kernel::<f64>::params_with_nn(IDX[0].0.clone()).kind(KernelType::Sparse(k)).method(km.linfa()).transform(x.view());
+                let oc = csr_of(&other).unwrap_or_default();
+                ctx.require(oc.0 == csr.0 && oc.1 == csr.1 && oc.2.iter().zip(&csr.2).all(|(a, b)| beq(*a, *b)), "index_independent", &class, || format!("linear search stores {:?}/{:?}, {} stores {:?}/{:?}", oc.0, oc.1, idx_name, csr.0, csr.1));
+            }
+        }
+        let cols = columns(&kernel, ci);
+        oracle_views(ctx, &class, &kernel, &mat, ci, &cols);
+        let sum = kernel.sum().to_vec();
+        let diag = kernel.diagonal().to_vec();
+        let ut = kernel.to_upper_triangle();
+        format!(
+            "ok size={} indptr={} indices={} data={} sum={} diag={} ut={} col={}",
+            kernel.size(),
+            list(csr.0.iter(), |v| v.to_string()),
+            list(csr.1.iter(), |v| v.to_string()),
+            fls(ex, &csr.2),
+            fls(ex, &sum),
+            fls(ex, &diag),
+            fls(ex, &ut),
+            show_cols(ex, &cols)
+        )
+    };
+    if valid {
+        em.case_valid(op, &class, body)
+    } else {
+        em.case(op, body)
+    }
+}
+
+/// like `knn_sets` but over all points including the query row itself (what `k_nearest` sees)
+fn knn_sets_self(rows: &[Vec<f64>], k: usize, tol_rel: f64) -> (Vec<Vec<bool>>, Vec<Vec<bool>>, bool) {
+    let n = rows.len();
+    let mut forced = vec![vec![false; n]; n];
+    let mut allowed = vec![vec![false; n]; n];
+    for i in 0..n {
+        let d: Vec<f64> = (0..n).map(|l| sqd(&rows[i], &rows[l])).collect();
+        for j in 0..n {
+            let tol = tol_rel * (1.0 + d[j]);
+            let le = (0..n).filter(|l| d[*l] <= d[j] + tol).count();
+            let lt = (0..n).filter(|l| d[*l] < d[j] - tol).count();
+            forced[i][j] = le <= k;
+            allowed[i][j] = lt < k;
+        }
+    }
+    (forced, allowed, true)
+}
+
+// ---------------------------------------------------------------------------------- hierarchical
+
+const METHODS: [(Method, &str); 7] = [
+    (Method::Single, "single"),
+    (Method::Complete, "complete"),
+    (Method::Average, "average"),
+    (Method::Weighted, "weighted"),
+    (Method::Ward, "ward"),
+    (Method::Centroid, "centroid"),
+    (Method::Median, "median"),
+];
+
+#[derive(Clone, Copy, Debug)]
+enum Crit {
+    Num(usize),
+    Dist(f64),
+}
+
+const THR: f64 = 1e-6;
+fn to_dist(x: f64) -> f64 {
+    if x > THR { -x.ln() } else { -THR.ln() }
+}
+fn canon(labels: &[usize]) -> Vec<usize> {
+    labels.iter().map(|l| labels.iter().position(|m| m == l).unwrap()).collect()
+}
+struct Uf(Vec<usize>);
+impl Uf {
+    fn find(&mut self, a: usize) -> usize {
+        let mut r = a;
+        while self.0[r] != r {
+            r = self.0[r];
+        }
+        let mut c = a;
+        while self.0[c] != r {
+            let nx = self.0[c];
+            self.0[c] = r;
+            c = nx;
+        }
+        r
+    }
+    fn union(&mut self, a: usize, b: usize) {
+        let (x, y) = (self.find(a), self.find(b));
+        if x != y {
+            self.0[x.max(y)] = x.min(y);
+        }
+    }
+    fn partition(&mut self) -> Vec<usize> {
+        let n = self.0.len();
+        let l: Vec<usize> = (0..n).map(|i| self.find(i)).collect();
+        canon(&l)
+    }
+}
+type Steps = Vec<(usize, usize, f64, usize)>;
+
+fn dmat(n: usize, dist: &[f64]) -> Vec<Vec<f64>> {
+    let mut d = vec![vec![0.0; n]; n];
+    let mut p = 0;
+    for i in 0..n {
+        for j in i + 1..n {
+            d[i][j] = dist[p];
+            d[j][i] = dist[p];
+            p += 1;
+        }
+    }
+    d
+}
+
+/// the dendrogram contract the model's theorems assume, checked on what `kodama` returned
+fn op_linkage(em: &mut Em, n: usize, dist: &[f64], steps: &Steps, mi: usize, desc: &str) {
+    let (_, mname) = METHODS[mi];
+    let op = format!("#linkage meth={} n={} kernel={} dist={}", mname, n, desc, list(dist.iter(), |v| hex64(*v)));
+    let class = format!("hier:{}", mname);
+    em.case(op, |ctx| {
+        ctx.require(steps.len() == n.saturating_sub(1), "kodama_contract", &class, || format!("{} steps for {} observations", steps.len(), n));
+        let d = dmat(n, dist);
+        let mut members: Vec<Option<Vec<usize>>> = (0..n).map(|i| Some(vec![i])).collect();
+        let mono = mi <= 4;
+        let mut prev = f64::NEG_INFINITY;
+        for (t, (a, b, dis, size)) in steps.iter().enumerate() {
+            let live = |c: usize| c < members.len() && members[c].is_some();
+            if !(a != b && live(*a) && live(*b)) {
+                ctx.fail("kodama_contract", &class, format!("step {} merges {} and {} which are not two live clusters", t, a, b));
+                return String::new();
+            }
+            let (ma, mb) = (members[*a].take().unwrap(), members[*b].take().unwrap());
+            ctx.require(*size == ma.len() + mb.len(), "kodama_contract", &class, || format!("step {} size {} for clusters of {} and {}", t, size, ma.len(), mb.len()));
+            if mono {
+                ctx.require(*dis >= prev, "kodama_contract", &class, || format!("step {} dissimilarity {} after {}", t, dis, prev));
+                prev = *dis;
+            }
+            let pair: Vec<f64> = ma.iter().flat_map(|i| mb.iter().map(|j| d[*i][*j]).collect::<Vec<_>>()).collect();
+            match mi {
+                0 => {
+                    let w = pair.iter().cloned().fold(f64::INFINITY, f64::min);
+                    ctx.require(*dis == w, "kodama_contract", &class, || format!("single-linkage step {}: {} but the closest pair is at {}", t, dis, w));
+                }
+                1 => {
+                    let w = pair.iter().cloned().fold(f64::NEG_INFINITY, f64::max);
+                    ctx.require(*dis == w, "kodama_contract", &class, || format!("complete-linkage step {}: {} but the farthest pair is at {}", t, dis, w));
+                }
+                2 => {
+                    let w = pair.iter().sum::<f64>() / pair.len() as f64;
+                    ctx.require(approx(*dis, w, 1e-9, 1e-12), "kodama_contract", &class, || format!("average-linkage step {}: {} but the mean pair distance is {}", t, dis, w));
+                }
+                _ => {}
+            }
+            let mut u = ma;
+            u.extend(mb);
+            members.push(Some(u));
+        }
+        String::new()
+    });
+}
+
+#[allow(clippy::too_many_arguments)]
+fn op_hier(em: &mut Em, kernel: &Kernel<f64>, ut: &[f64], dist: &[f64], steps: &Steps, mi: usize, crit: Crit, desc: &str) {
+    let (method, mname) = METHODS[mi];
+    let n = kernel.size();
+    let cs = match crit {
+        Crit::Num(c) => format!("n:{}", c),
+        Crit::Dist(d) => format!("d:{}", hex64(d)),
+    };
+    let op = format!(
+        "hier n={} meth={} kernel={} steps={} dis={} crit={} ut={}",
+        n,
+        mname,
+        desc,
+        list2(steps.iter().map(|s| vec![s.0, s.1, s.3]), |v| v.to_string()),
+        list(steps.iter(), |s| hex64(s.2)),
+        cs,
+        list(ut.iter(), |v| hex64(*v))
+    );
+    let class = format!("hier:{}:{}", mname, if let Crit::Num(_) = crit { "count" } else { "threshold" });
+    em.case_valid(op, &class, |ctx| {
+        let params = match crit {
+            Crit::Num(c) => HierarchicalCluster::default().with_method(method).num_clusters(c),
+            Crit::Dist(d) => HierarchicalCluster::default().with_method(method).max_distance(d),
+        };
+        let res = match params.transform(kernel.clone()) {
+            Ok(r) => r,
+            Err(e) => {
+                ctx.fail("no_error", &class, format!("valid criterion rejected: {}", e));
+                return "err".to_string();
+            }
+        };
+        let labels: Vec<usize> = res.targets.clone();
+        ctx.require(labels.len() == n, "all_labelled", &class, || format!("{} labels for {} samples", labels.len(), n));
+        let mut ids = labels.clone();
+        ids.sort_unstable();
+        ids.dedup();
+        let nc = ids.len();
+        ctx.require(ids.iter().enumerate().all(|(i, v)| i == *v), "ids_contiguous", &class, || format!("cluster ids {:?}", ids));
+        let part = canon(&labels);
+        match crit {
+            Crit::Num(c) => {
+                ctx.require(nc == c.min(n), "cluster_count", &class, || format!("{} clusters for requested {} on {} samples", nc, c, n));
+            }
+            Crit::Dist(d) => {
+                // every merge all of whose sub-merges (itself included) lie below the threshold
+                let mut uf = Uf((0..n).collect());
+                let mut rep: Vec<usize> = (0..n).collect();
+                let mut sub: Vec<f64> = vec![f64::NEG_INFINITY; n];
+                for (a, b, dis, _) in steps.iter() {
+                    if *a >= rep.len() || *b >= rep.len() {
+                        break;
+                    }
+                    let m = dis.max(sub[*a]).max(sub[*b]);
+                    if m < d {
+                        uf.union(rep[*a], rep[*b]);
+                    }
+                    rep.push(rep[*a]);
+                    sub.push(m);
+                }
+                let want = uf.partition();
+                ctx.require(part == want, "threshold_merges", &class, || format!("threshold {}: partition {:?}, merges below the threshold give {:?}", d, part, want));
+                if mi == 0 {
+                    let dm = dmat(n, dist);
+                    let mut g = Uf((0..n).collect());
+                    for i in 0..n {
+                        for j in i + 1..n {
+                            if dm[i][j] < d {
+                                g.union(i, j);
+                            }
+                        }
+                    }
+                    let want = g.partition();
+                    ctx.require(part == want, "single_linkage_components", &class, || format!("threshold {}: partition {:?}, components of the below-threshold graph {:?}", d, part, want));
+                }
+            }
+        }
+        format!("ok nc={} part={} dist={}", nc, list(part.iter(), |v| v.to_string()), fls(false, dist))
+    });
+}
+
+// ---------------------------------------------------------------------------------- generators
+
+fn gen_points(rng: &mut Rng, n: usize, p: usize, style: usize) -> Array2<f64> {
+    match style {
+        // small integer lattice: many ties and duplicates
+        0 => Array2::from_shape_fn((n, p), |_| rng.range(-3, 3) as f64),
+        // wider lattice, quarter steps
+        1 => Array2::from_shape_fn((n, p), |_| rng.range(-40, 40) as f64 / 4.0),
+        // 1-D-like tie-free lattice: pairwise distances all distinct (powers of two), shuffled
+        2 => {
+            let mut e: Vec<usize> = (0..n).collect();
+            rng.shuffle(&mut e);
+            let sign: Vec<f64> = (0..p).map(|_| if rng.coin() { 1.0 } else { -1.0 }).collect();
+            Array2::from_shape_fn((n, p), |(i, j)| if j == 0 { sign[0] * (1u64 << (e[i] % 20)) as f64 / 8.0 } else { sign[j] * (e[i] % 3) as f64 })
+        }
+        // two tight groups (clusters) on a lattice
+        3 => {
+            let off = rng.range(4, 12) as f64;
+            Array2::from_shape_fn((n, p), |(i, _)| (if i % 2 == 0 { 0.0 } else { off }) + rng.range(-4, 4) as f64 / 4.0)
+        }
+        // generic reals
+        _ => {
+            let scale = *rng.pick(&[1.0, 1.0, 0.01, 30.0]);
+            Array2::from_shape_fn((n, p), |_| (rng.unit() * 2.0 - 1.0) * scale)
+        }
+    }
+}
+
+fn gen_method(rng: &mut Rng, lattice: bool) -> Km {
+    match rng.below(8) {
+        0 | 1 | 2 => Km::L,
+        3 | 4 | 5 => {
+            let e = if lattice { *rng.pick(&[0.5, 1.0, 2.0, 8.0, 0.3, 100.0, 0.0625]) } else { 0.05 + rng.unit() * 10.0 };
+            Km::G(e)
+        }
+        _ => Km::P(*rng.pick(&[0.0, 1.0, -1.0, 2.5]), *rng.pick(&[1.0, 2.0, 3.0, 0.5, -1.0, 2.5])),
+    }
+}
+
+fn gen_rhs(rng: &mut Rng, n: usize) -> Array2<f64> {
+    let q = *rng.pick(&[1usize, 2, 3, 8, 9]);
+    Array2::from_shape_fn((n, q), |_| rng.range(-3, 3) as f64)
+}
+
+fn hier_cases(em: &mut Em, rng: &mut Rng, kernel: &Kernel<f64>, desc: &str, per_method: usize) {
+    let n = kernel.size();
+    let ut = kernel.to_upper_triangle();
+    let dist: Vec<f64> = ut.iter().map(|x| to_dist(*x)).collect();
+    if dist.iter().any(|d| !d.is_finite()) {
+        em.count("hier:nonfinite_skipped");
+        return;
+    }
+    for mi in 0..METHODS.len() {
+        let mut buf = dist.clone();
+        let steps: Steps = match catch_unwind(AssertUnwindSafe(|| linkage_steps(&mut buf, n, METHODS[mi].0))) {
+            Ok(s) => s,
+            Err(_) => {
+                em.count("hier:linkage_panicked");
+                continue;
+            }
+        };
+        if steps.iter().any(|s| !s.2.is_finite()) {
+            em.count("hier:nonfinite_skipped");
+            continue;
+        }
+        if steps.windows(2).any(|w| w[1].2 < w[0].2) {
+            em.count("hier:nonmonotone_dendrogram");
+        }
+        if steps.windows(2).any(|w| w[1].2 == w[0].2) {
+            em.count("hier:tied_dissimilarities");
+        }
+        op_linkage(em, n, &dist, &steps, mi, desc);
+        for _ in 0..per_method {
+            let crit = if rng.coin() {
+                let c = match rng.below(6) {
+                    0 => 1,
+                    1 => n.max(1),
+                    2 => n + 1 + rng.below(3),
+                    3 => n.saturating_sub(1).max(1),
+                    _ => 1 + rng.below(n.max(1)),
+                };
+                Crit::Num(c)
+            } else {
+                let d = match rng.below(7) {
+                    0 => 0.0,
+                    1 => 20.0,
+                    2 | 3 if !steps.is_empty() => steps[rng.below(steps.len())].2.max(0.0),
+                    4 if !steps.is_empty() => {
+                        let s = steps[rng.below(steps.len())].2;
+                        (s + 0.5 * rng.unit()).max(0.0)
+                    }
+                    5 if !dist.is_empty() => dist[rng.below(dist.len())].max(0.0),
+                    _ => rng.unit() * 14.0,
+                };
+                Crit::Dist(d)
+            };
+            match crit {
+                Crit::Num(c) => em.count(if c >= n { "hier:count>=n" } else { "hier:count<n" }),
+                Crit::Dist(d) => em.count(if steps.iter().any(|s| s.2 == d) { "hier:threshold_on_a_merge" } else { "hier:threshold_between" }),
+            }
+            op_hier(em, kernel, &ut, &dist, &steps, mi, crit, desc);
+        }
+    }
+}
+
+pub fn run(em: &mut Em, rng: &mut Rng) {
+    let thorough = em.thorough();
+    let (rounds, nmax) = if thorough { (2500, 60) } else { (70, 12) };
+    for round in 0..rounds {
+        let style = rng.below(5);
+        let lattice = style != 4;
+        let n = if round < 4 { round } else if rng.chance(1, 4) { 2 + rng.below(nmax.min(8)) } else { 2 + rng.below(nmax - 1) };
+        let p = match rng.below(10) {
+            0 if style != 2 => 0,
+            1 => 8 + rng.below(10),
+            2 => 4 + rng.below(4),
+            _ => 1 + rng.below(3),
+        };
+        let x = gen_points(rng, n, p, style);
+        em.count(&format!("points:{}", ["lattice_small", "lattice_quarter", "lattice_tie_free", "lattice_groups", "generic"][style]));
+        let km = gen_method(rng, lattice);
+        em.count(&format!("kernel:{}", km.name()));
+        let mut ci: Vec<usize> = (0..3).map(|_| rng.below(n + 1)).collect();
+        if rng.chance(1, 6) {
+            ci.push(n + rng.below(3));
+        }
+        op_dense(em, &x, km, &ci);
+        // dot: keep to values where the products carry no cancellation blow-up (see notes)
+        let km_dot = match km {
+            Km::P(c, d) if d.fract() != 0.0 || d < 0.0 => Km::P(c, 2.0),
+            m => m,
+        };
+        let r = gen_rhs(rng, n);
+        op_ddot(em, &x, km_dot, &r);
+        // sparse kernels: a few neighbour counts (boundaries 0, 1, n-1, n included) with every index
+        if p > 0 {
+            let mut ks: Vec<usize> = vec![1, n.saturating_sub(1), 1 + rng.below(n.max(2) - 1)];
+            if rng.chance(1, 4) {
+                ks.push(*rng.pick(&[0, n, n + 1]));
+            }
+            ks.sort_unstable();
+            ks.dedup();
+            for k in ks {
+                let dot_which = rng.below(3);
+                for which in 0..3 {
+                    if which > 0 && !(k > 0 && k < n) {
+                        continue;
+                    }
+                    em.count(&format!("sparse:k={}", if k == 0 { "0" } else if k + 1 == n { "n-1" } else if k >= n { ">=n" } else { "inner" }));
+                    op_sparse(em, &x, km, k, which, &ci, lattice, None);
+                    if which == dot_which && k > 0 && k < n {
+                        op_sparse(em, &x, km_dot, k, which, &ci, lattice, Some(&r));
+                    }
+                }
+            }
+        }
+        // hierarchical clustering on this kernel (dense, and one sparse variant)
+        if n <= if thorough { 40 } else { 12 } {
+            let per = if thorough { 3 } else { 2 };
+            let dense = Kernel::<f64>::params().method(km.linfa()).transform(x.view());
+            hier_cases(em, rng, &dense, &format!("dense:{}", km.name()), per);
+            if p > 0 && n >= 3 && rng.chance(1, 3) {
+                let k = 1 + rng.below(n - 1);
+                if let Ok(sp) = catch_unwind(AssertUnwindSafe(|| Kernel::<f64>::params().kind(KernelType::Sparse(k)).method(km.linfa()).transform(x.view()))) {
+                    hier_cases(em, rng, &sp, &format!("sparse{}:{}", k, km.name()), 1);
+                }
+            }
+        }
+    }
+}
